@@ -2,8 +2,11 @@
 package main
 
 import (
+	"bytes"
 	"fmt"
 	"os"
+	"os/exec"
+	"path/filepath"
 	"sort"
 	"strings"
 	"time"
@@ -481,11 +484,39 @@ func main() {
 			scs = append(scs, crowdScenario(variant, n, []int{0}, 1), crowdScenario(variant, n, []int{n / 2, n - 1}, 1), crowdScenario(variant, n, nil, 1))
 		}
 	}
-	if os.Getenv("VERIF_SHARD") == "" && os.Getenv("VERIF_REPLAY") == "" {
+	if os.Getenv("VERIF_C10_SEQ") != "" {
+		// child process: the sequential parts only (see below)
 		r.Set("sequential_family_calls", sequentialFamily(r))
 		st, tr := sequentialAPI(r)
 		r.Set("sequential_api_states", st)
 		r.Set("sequential_api_transitions", tr)
+		r.Finish()
+	}
+	if os.Getenv("VERIF_SHARD") == "" && os.Getenv("VERIF_REPLAY") == "" {
+		// The sequential families and the sequential API search call the real package without the
+		// scheduler; a publisher that panics in one of ITS OWN goroutines would take this process down,
+		// so they run in a child process whose death is a violation, not an infrastructure error.
+		pf := filepath.Join(os.TempDir(), fmt.Sprintf("c10seq-%d.json", os.Getpid()))
+		cmd := exec.Command(os.Args[0], os.Args[1:]...)
+		cmd.Env = append(os.Environ(), "VERIF_C10_SEQ=1", "VERIF_PARTIAL="+pf)
+		var errb bytes.Buffer
+		cmd.Stderr = &errb
+		cmd.Stdout = &errb
+		err := cmd.Run()
+		if _, statErr := os.Stat(pf); statErr == nil {
+			r.Absorb(pf, "")
+			os.Remove(pf)
+		} else {
+			tail := errb.String()
+			if i := strings.Index(tail, "panic:"); i >= 0 {
+				tail = tail[i:]
+			}
+			if len(tail) > 900 {
+				tail = tail[:900]
+			}
+			first := strings.SplitN(strings.TrimSpace(tail), "\n", 2)[0]
+			r.Report(ev.Violation{Sig: "crash|sequential|" + strings.ReplaceAll(first, " ", "_"), Msg: fmt.Sprintf("the process died during the single-goroutine Sub/Unsub/publish histories (%v): %s", err, strings.ReplaceAll(tail, "\n", " | ")), Replay: map[string]any{"family": "sequential"}})
+		}
 	}
 	schk.Main(r, scs, ev.Pick(r, 50*time.Second, 1500*time.Second), func(r *ev.Run) {
 		r.Set("rule", "controlled scheduler over the instrumented chans package (RWMutex with writer preference, WaitGroup, spawned sender goroutines, channels, select and timers are model objects): one publisher using each of the 6 publish variants (1 event, 2 for the Slice variants), 0-2 (3) subscribers with buffers {0,1} created through Sub/DefaultBuffer and SubBuf, timeout off / on with a recording OnPubTimeout, one receiver per subscription that keeps receiving until its channel is closed, and optionally a manager thread doing one of Unsub(sub0), UnsubAll, Sub, Unsub(unknown), Unsub(nil), WithOnly(sub0).PubSync, or a second publisher; executions run to quiescence (only receivers may remain blocked). In addition (one goroutine, no scheduler) an explicit-state search to fixpoint over the sequential API: SubBuf/Sub, Unsub of every handle incl. already removed ones, nil and foreign channels, UnsubAll, the four synchronous publish variants, WithOnly(handle) publishers made on the spot and one retained across later calls, up to 3 (4) subscription handles, every channel drained and compared with a subscription model after every call. Ledger oracle: per (event, subscriber) at most one delivery; every subscriber that stayed subscribed gets each event or, only with a timeout, one OnPubTimeout stands in for it; deliveries + timeouts never exceed the subscribers (and equal them without a manager); Sync variants in publication order; Wait/Sync return only after every hand-off or timeout callback is done; Unsub/UnsubAll close exactly the removed channels and return the documented errors; WithOnly reaches only the given subscription; no panic")
